@@ -97,58 +97,101 @@ def spec_fields(facts, v):
     return out
 
 
+def _flat_arg(x, out):
+    """Atoms of one formatted argument: a string built beforehand (`to_string()`, `format!(..)`) is what it was built from."""
+    if isinstance(x, T) and x.op == "display" and len(x.args) == 1:
+        x = x.args[0]
+    while call_name(x) in ("std::hint::must_use",) and len(x.args) == 1:
+        x = x.args[0]
+    if call_name(x) in ("<T as std::string::ToString>::to_string", "std::string::ToString::to_string") and len(x.args) == 1:
+        return _flat_arg(x.args[0], out)
+    if call_name(x) == "std::fmt::format" and len(x.args) == 1 and isinstance(x.args[0], T) and x.args[0].op == "fmt" \
+            and isinstance(x.args[0].args[0], Const):
+        return _flat_tpl(x.args[0].args[0].v, list(x.args[0].args[1:]), out)
+    if isinstance(x, Const) and isinstance(x.v, str):
+        if x.v:
+            out.append(("lit", x.v))
+        return True
+    out.append(("val", x))
+    return True
+
+
+def _flat_tpl(tpl, args, out):
+    if tpl is None:
+        return False
+    args = list(args)
+    for piece in tpl:
+        if piece is None:
+            if not args:
+                return False
+            _flat_arg(args.pop(0), out)
+        elif piece:
+            out.append(("lit", piece))
+    return True
+
+
+def line_atoms(writes):
+    """The text of a line as a flat list of atoms ('lit', text) / ('val', term), however it was put together: several
+    writes, one write of pre-rendered strings, format!() ..."""
+    out = []
+    for w in writes:
+        f = fmt_of(w)
+        if f is None or not _flat_tpl(f[0], f[1], out):
+            return None
+    merged = []
+    for a in out:
+        if a[0] == "lit" and merged and merged[-1][0] == "lit":
+            merged[-1] = ("lit", merged[-1][1] + a[1])
+        else:
+            merged.append(a)
+    return merged
+
+
 def check_line(facts, dom, store, writes, n):
-    """Is the list of write events what C19 prescribes for result n on this path?  Returns (ok, text)."""
+    """Is what the write events print what C19 prescribes for result n on this path?  Returns (ok, text)."""
     v, u = Sym("v%d" % n), Sym("u%d" % n)
     exact = dom.decide(store, Sym("opts.exact"))
     if exact is None:
         return False, "the path never looks at --exact"
-    ws = [fmt_of(w) for w in writes]
-    if any(w is None for w in ws):
+    got = line_atoms(writes)
+    if got is None:
         return False, "unrecognised write %r" % (writes,)
-    i = 0
     numer = T("call:anything::Rational::numer", v)
     denom = T("call:anything::Rational::denom", v)
+    want = []
     if exact:
         one = dom.decide(store, T("is_one", denom))
         if one is None:
             return False, "exact mode does not test whether the denominator is one"
-        want = ((None,), (T("display", numer),)) if one else ((None, "/", None), (T("display", numer), T("display", denom)))
-        if not ws or (ws[0][0], tuple(ws[0][1])) != want:
-            return False, "exact mode with denominator %s one writes %r, expected template %r with %r" % (
-                "==" if one else "!=", ws[:1], want[0], want[1])
-        i = 1
+        want = [("val", numer)] if one else [("val", numer), ("lit", "/"), ("val", denom)]
+        what = "exact mode with denominator %s one" % ("==" if one else "!=")
     else:
-        if not ws or ws[0][0] != (None,) or len(ws[0][1]) != 1:
-            return False, "decimal mode writes %r" % (ws[:1],)
-        a = ws[0][1][0]
-        d = a.args[0] if isinstance(a, T) and a.op == "display" else None
+        what = "decimal mode"
+        d = got[0][1] if got and got[0][0] == "val" else None
         if call_name(d) != "anything::Rational::display" or d.args[0] != v:
-            return False, "decimal mode does not print value.display(spec): %r" % (a,)
+            return False, "decimal mode does not print value.display(spec): writes %r" % (got[:2],)
         sf = spec_fields(facts, d.args[1])
-        want = {"limit": Const(12), "exponent_limit": Const(12), "show_continuation": Const(True)}
-        got = {k: sf.get(k) for k in want}
-        got["show_continuation"] = Const(bool(got["show_continuation"].v)) if isinstance(got["show_continuation"], Const) else got["show_continuation"]
-        if got != want:
-            return False, "decimal renderer configured with %r, expected 12/12/true" % (got,)
-        i = 1
+        wantspec = {"limit": Const(12), "exponent_limit": Const(12), "show_continuation": Const(True)}
+        gs = {k: sf.get(k) for k in wantspec}
+        gs["show_continuation"] = Const(bool(gs["show_continuation"].v)) if isinstance(gs["show_continuation"], Const) else gs["show_continuation"]
+        if gs != wantspec:
+            return False, "decimal renderer configured with %r, expected 12/12/true" % (gs,)
+        want = [("val", d)]
     hn = dom.decide(store, T("call:anything::Compound::has_numerator", u))
     if hn is None:
         return False, "the separator does not depend on unit.has_numerator()"
-    if hn:
-        if len(ws) <= i or ws[i][0] != (" ",) or ws[i][1]:
-            return False, "has_numerator() is true but the next write is %r, expected a single space" % (ws[i:i + 1],)
-        i += 1
-    if len(ws) != i + 1:
-        return False, "expected exactly one more write (the unit and the newline), got %r" % (ws[i:],)
-    tpl, args = ws[i]
-    if tpl != (None, "\n") or len(args) != 1:
-        return False, "the line is not finished by writeln!(\"{}\", unit): %r" % (ws[i],)
-    d = args[0].args[0] if isinstance(args[0], T) and args[0].op == "display" else None
     plural = T("Not", T("call:<anything::Rational as num::One>::is_one", v))
-    if call_name(d) != "anything::Compound::display" or d.args[0] != u or d.args[1] != plural:
-        return False, "the unit is printed as %r, expected unit.display(!value.is_one())" % (d,)
-    return True, "exact=%s has_numerator=%s: %d write(s) as specified" % (exact, hn, len(ws))
+    unit = T("call:anything::Compound::display", u, plural)
+    want = want + ([("lit", " ")] if hn else []) + [("val", unit), ("lit", "\n")]
+    wm = []
+    for a in want:
+        if a[0] == "lit" and wm and wm[-1][0] == "lit":
+            wm[-1] = ("lit", wm[-1][1] + a[1])
+        else:
+            wm.append(a)
+    if got != wm:
+        return False, "%s writes %r; specified %r" % (what, got, wm)
+    return True, "exact=%s has_numerator=%s: the line is as specified" % (exact, hn)
 
 
 def run_main(facts, results, ndesc=2, io_fail=True):
